@@ -521,6 +521,10 @@ def next_psuedo_matches(state: TokenizerState) -> TokenInfo | None:
     elif match.lastgroup == "NL":
         token_type = Token.NL if state.parenlev > 0 else Token.NEWLINE
     elif match.lastgroup == "Special":
+        if token == ":=" and state.in_braces() and state.at_parenlev():
+            # at the top level of a replacement field this is a format spec that starts with '='
+            token, end = ":", start + 1
+            epos, state.pos = (state.lnum, end), end
         if token[-1] in "([{":
             state.parenlev += 1
         elif token in ")]}":
